@@ -17,8 +17,10 @@
  * both         ensure    heap order on every pair of 1..count; back pointers consistent; the multiset of
  *                        entries unchanged (ghost entry: present exactly once, key / payload / sort keys /
  *                        hash slot unchanged); count, slot 0, hash keys unchanged.
- * The preconditions are what enqueue (k = count, no children), dequeue (k = 1), remove and reprioritize
- * (the side is chosen by comparing with the parent) establish; that correspondence is checked by the L3
+ * The preconditions are what enqueue (k = count, no children), dequeue (k = 1), remove and reprioritize establish:
+ * those two pick the side by comparing the OLD entry at k with the NEW one - old before new: heap_down, and
+ * new >= old >= parent(k), children(k) >= old >= parent(k); otherwise heap_up, and children(k) >= old >= new,
+ * children(k) >= old >= parent(k) (transitivity of the strict weak order); that correspondence is checked by the L3
  * groups at capacity 2 and 4 with the real callers, for larger heaps it is the transitivity argument in
  * DESIGN.md.
  */
